@@ -898,6 +898,7 @@ def build_models(I):
     reg(_dsl.rest, m_rest)
     reg(_dsl.at_end, m_at_end)
     reg(_dsl.clsof, m_clsof)
+    reg(_dsl.list_of, lambda I, a, k: a[0])
     reg(_dsl.is_prefix, m_is_prefix)
     reg(_dsl.le_int, m_le_int)
     reg(_dsl.be_int, m_be_int)
